@@ -74,6 +74,8 @@ def build_detector(d, optics=None):
     if t == "grid":
         det = detector_grid(shape=tuple(d["shape"]), spacing=tuple(d["spacing"]) if isinstance(d["spacing"], (list, tuple)) else d["spacing"],
                             name=d.get("name"), extra_dims=d.get("extra_dims"))
+        if d.get("z"):
+            det = det.assign_coords(z=[float(d["z"])])
         org = d.get("origin")
         if org:
             det = det.assign_coords(x=det.x.values + org[0], y=det.y.values + org[1])
@@ -222,6 +224,8 @@ def gen_grid(rng, maxn=10, allow_1=True, extent=2.0):
     d = {"t": "grid", "shape": [nx, ny], "spacing": [sx, sy]}
     if rng.random() < 0.3:
         d["origin"] = [float(rng.uniform(-1, 1)), float(rng.uniform(-1, 1))]
+    if rng.random() < 0.15:
+        d["z"] = float(rng.uniform(-1.5, 1.5))     # detector plane away from z = 0
     return d
 
 
@@ -323,6 +327,8 @@ def scale_config(cfg, L):
         d["spacing"] = [v * L for v in sp] if isinstance(sp, (list, tuple)) else sp * L
         if d.get("origin"):
             d["origin"] = [v * L for v in d["origin"]]
+        if d.get("z"):
+            d["z"] = d["z"] * L
     elif d["t"] == "points":
         d["x"] = [v * L for v in d["x"]]
         d["y"] = [v * L for v in d["y"]]
@@ -398,7 +404,7 @@ def grid_to_points(d):
     """point detector holding exactly the pixel positions of a grid spec (x-major order, as the grid flattens)"""
     x, y = grid_positions(d)
     X, Y = np.meshgrid(x, y, indexing="ij")
-    return {"t": "points", "x": [float(v) for v in X.ravel()], "y": [float(v) for v in Y.ravel()], "z": 0.0}
+    return {"t": "points", "x": [float(v) for v in X.ravel()], "y": [float(v) for v in Y.ravel()], "z": float(d.get("z") or 0.0)}
 
 
 def rotate_config(cfg, alpha, rotate_pol=True):
